@@ -399,6 +399,12 @@ def np_scalars(params, on=True):
     return out
 
 
+def with_np(strategy):
+    """adds the flag `np_params` (one case in three) to the dict cases of a strategy"""
+    from hypothesis import strategies as st
+    return st.builds(lambda c, f: dict(c, np_params=f), strategy, st.sampled_from([False, False, True]))
+
+
 # --------------------------------------------------------------------------- main driver
 def _pool(n):
     """fork pool whose workers are NOT daemonic: joblib answers effective_n_jobs()==1 inside a daemonic process, so code that sizes its
